@@ -689,7 +689,7 @@ def build(desc, shared=None):
         return f
 
     def get_constraint(c, path):
-        key = (path, repr(c))
+        key = repr(c) if objs.get("share_constraints_by_value") else (path, repr(c))
         if key in objs["constraints"]:
             return objs["constraints"][key]
         kind = c[0]
